@@ -61,6 +61,8 @@ func VP_C11_step() {
 	vp.Assert(len(out) == size, "raw length")
 	vp.Assert(vpRefGet(out, bits, j) == got, "Raw==reference packing")
 	vp.Assert(bs.Len() == n, "Len")
+	vp.Observe("got", got)
+	vp.Observe("word0", out[0])
 	vp.Cover("end")
 }
 
@@ -166,7 +168,14 @@ func VP_C11_bitsper() {
 func VP_C11_wire() {
 	bits := 1 + vp.Choice(32)
 	vpl := 64 / bits
-	n := []int{0, 1, vpl, vpl + 1, 2*vpl + 1}[vp.Choice(5)]
+	nsw := []int{0, 1, vpl, vpl + 1, 2*vpl + 1}
+	if bits == 32 {
+		nsw = append(nsw, 257) // 129 longs: more than one 1 KiB block on the wire
+	}
+	if bits == 5 && vp.Tier() == 1 {
+		nsw = append(nsw, 4096)
+	}
+	n := nsw[vp.Choice(len(nsw))]
 	size := (n + vpl - 1) / vpl
 	raw := make([]uint64, size)
 	for k := range raw {
@@ -176,7 +185,7 @@ func VP_C11_wire() {
 	var w bytes.Buffer
 	wn, err := src.WriteTo(&w)
 	vp.Assert(err == nil && wn == int64(w.Len()), "WriteTo count")
-	vp.Assert(w.Len() == 1+8*size, "wire length")
+	vp.Assert(w.Len() == vpVarLen(size)+8*size, "wire length")
 	trail := vp.Bytes(2)
 	w.Write(trail)
 	var dst *BitStorage
@@ -207,6 +216,61 @@ func VP_C11_wire() {
 	// what was read is what is written again
 	var w2 bytes.Buffer
 	dst.WriteTo(&w2)
-	vp.Assert(w2.Len() == 1+8*size, "re-encoded length")
+	vp.Assert(w2.Len() == vpVarLen(size)+8*size, "re-encoded length")
+	vp.Cover("end")
+}
+
+
+func vpVarLen(v int) int {
+	n := 1
+	for v >= 128 {
+		v >>= 7
+		n++
+	}
+	return n
+}
+
+
+// large storages (section and height-map sizes and beyond): the same one-step
+// array property at indices taken from a boundary list - first and last slot
+// of the longs 0, 16, 17, 64, 65, 255, 256 and the last one - with their
+// neighbours, arbitrary values and arbitrary contents of the touched longs.
+func VP_C11_large() {
+	bits := []int{1, 2, 4, 5, 8, 13, 32}[vp.Choice(7)]
+	vpl := 64 / bits
+	n := []int{1088, 4096}[vp.Choice(2)]
+	size := (n + vpl - 1) / vpl
+	longs := []int{0, 16, 17, 64, 65, 255, 256, size - 1}
+	L := longs[vp.Choice(len(longs))]
+	vp.Assume(L < size)
+	i := L*vpl + []int{0, vpl - 1}[vp.Choice(2)]
+	vp.Assume(i < n)
+	j := i + []int{0, -1, 1, vpl}[vp.Choice(4)]
+	vp.Assume(j >= 0 && j < n)
+	raw := make([]uint64, size)
+	for k := L - 1; k <= L+1; k++ {
+		if k >= 0 && k < size {
+			raw[k] = vp.Uint64()
+		}
+	}
+	bs := NewBitStorage(bits, n, raw)
+	v := vp.Int()
+	vp.Assume(v >= 0 && uint64(v) <= uint64(1)<<uint(bits)-1)
+	oldI, oldJ := bs.Get(i), bs.Get(j)
+	vp.Assert(oldJ == vpRefGet(raw, bits, j), "Get==reference unpacking")
+	if vp.Choice(2) == 0 {
+		bs.Set(i, v)
+	} else {
+		vp.Assert(bs.Swap(i, v) == oldI, "Swap returns previous")
+	}
+	got := bs.Get(j)
+	if j == i {
+		vp.Assert(got == v, "Get(i)==v after Set")
+	} else {
+		vp.Assert(got == oldJ, "other index unchanged")
+	}
+	vp.Assert(vpRefGet(bs.Raw(), bits, j) == got, "Raw==reference packing")
+	// the first index past the end still panics
+	vp.Assert(vp.ExpectPanic(func() { bs.Get(n) }), "out-of-range panics")
 	vp.Cover("end")
 }
